@@ -183,14 +183,19 @@ def map_call(ctx, i):
                 else:
                     empty_map(ctx, o, f"async-map-k{mc}", case)
     # a map() call that cannot run (a required input is missing, errors are raised): rejected, nothing delivered
-    others = [k for k in inputs if k != over]
-    for k in sorted(others)[:4]:
-        less = {a: b for a, b in inputs.items() if a != k}
+    from hgmon import ref
+
+    spec2 = {**copy.deepcopy(spec), "bind": {}}  # nothing bound: every input without a default is required
+    req2 = [r for r in ref.ref_inputs(spec2)[0] if r != over]
+    full2 = {r: f"run:{r}" for r in ref.ref_inputs(spec2)[0]}
+    for k in req2[:2]:
+        less = {a: b for a, b in full2.items() if a != k}
         less[over] = [f"{over}:r{j}" for j in range(2)]
         for runner in ("sync", "async"):
-            o = core.execute(core.with_async(spec, runner == "async", rng), less, runner, processors=[(Rec if runner == "sync" else ARec)("p")], map_over=over, error_handling="raise")
+            o = core.execute(core.with_async(spec2, runner == "async", rng), less, runner, processors=[(Rec if runner == "sync" else ARec)("p")], map_over=over, error_handling="raise")
             if o.exc is not None and type(o.exc).__name__ == "MissingInputError":
                 ctx.obs["rejected_calls"] += 1
+                ctx.obs["rejected_map_calls"] += 1
                 evs = rt.events_of(o.rec, "p")
                 shut = sum(1 for e in o.rec.ev if e[0] == "shutdown" and e[1] == "p")
                 if evs or shut:
